@@ -35,6 +35,9 @@ def parse_script(spec: Iterable[Any]) -> list[Outcome]:
         if s.startswith('ok+status'):
             out.append(Outcome('ok', edit={'status': {'foreign': s[9:] or 'x'}}))
             continue
+        if s.startswith('ok+spec'):      # an ESSENTIAL foreign edit while the handler runs (somebody edits the spec meanwhile)
+            out.append(Outcome('ok', edit={'spec': {'x': int(s[7:] or 9)}}))
+            continue
         if s.startswith('ok+label'):
             out.append(Outcome('ok', edit={'metadata': {'labels': {'foreign': s[8:] or 'x'}}}))
             continue
@@ -212,6 +215,9 @@ class ChangeScenario(Scenario):
             for k in ('errors',):
                 if isinstance(h.get(k), str):
                     h[k] = getattr(kopf.ErrorsMode, h[k])
+            if isinstance(h.get('when'), str) and h['when'].startswith('status.foreign!='):
+                # a `when=` callback that looks at a status field (edits of which are not essential changes): the filter can flip in mid-cycle
+                h['when'] = (lambda bad: (lambda status, **_: status.get('foreign') != bad))(int(h['when'].split('!=')[1]))
             deco(self.kind.plural, id=hid, registry=reg, **h)(fn)
         # handlers of ANOTHER kind served by the same operator (never triggered here: only their declarations are in the registry)
         for h in self.params.get('other_kind_handlers', []):
